@@ -41,7 +41,7 @@ type memtable struct {
 //   - *memtable: New memtable instance
 func newMemtable(vecIdx VectorIndex, txtIdx TextIndex, metaIdx MetadataIndex, sizeLimit int64) *memtable {
 	return &memtable{
-		index:     NewHybridSearchIndex(vecIdx, txtIdx, metaIdx),
+		index:     NewHybridSearchIndex(newVectorIndexLike(vecIdx), newTextIndexLike(txtIdx), newMetadataIndexLike(metaIdx)),
 		sizeLimit: sizeLimit,
 		createdAt: time.Now(),
 	}
